@@ -21,7 +21,7 @@ from .C15 import defgrad
 PROP = "C09"
 
 EVIDENCE = {
-    "probes_expected": ["affine-field-checked", "uniform-F-checked", "curve-y-checked", "curve-x-checked", "twin-compared", "history-immutable-checked", "distorted-mesh", "curved-tri6", "fault:solver_inexact", "material-curve-checked", "load-unload", "clamp-released-on-same-step"],
+    "probes_expected": ["affine-field-checked", "uniform-F-checked", "curve-y-checked", "curve-x-checked", "twin-compared", "history-immutable-checked", "distorted-mesh", "curved-tri6", "fault:solver_inexact", "material-curve-checked", "load-unload", "clamp-released-on-same-step", "x0-toplevel-container"],
     "clauses_sampled_only": ["'material-level uniaxial, planar and biaxial curves agree with the same analytic stresses' (umat.view()) is a pure function of the material; it is evaluated once per run as sampling"],
 }
 
@@ -100,7 +100,7 @@ def generate(seed, tier, k):
     doc["faults"] = []
     if k % 3 == 2:
         doc["faults"].append({"kind": "solver_inexact", "rel": r.choice([1e-12, 1e-9, 1e-6, 1e-4, 1e-3]), "seed": r.randrange(1000)})
-    doc["c09"] = {"twin": r.random() < 0.5, "twin_seed": r.randrange(1 << 30), "view": r.random() < 0.3}
+    doc["c09"] = {"twin": r.random() < 0.5, "twin_seed": r.randrange(1 << 30), "view": r.random() < 0.3, "curve_items": r.random() < 0.3, "x0_toplevel": case != "patch" and r.random() < 0.25}
     if case == "uniaxial" and r.random() < 0.25:
         # two-phase history on the same Step object: first with the loaded face clamped (not
         # homogeneous, no oracle), then the clamp is released and the ramp continues
@@ -236,7 +236,20 @@ def simulate(doc, log, monitors=True):
         if case == "patch":
             job, exc = eng.run_job()
         else:
-            job, exc = eng.run_job(job_cls=fem.CharacteristicCurve, job_kwargs={"boundary": w.ramp_bc["move"]})
+            jk = {"boundary": w.ramp_bc["move"]}
+            if dd["c09"].get("curve_items"):
+                jk["items"] = [w.items[0]]  # reaction force from the forces of the listed items
+            ekw = {}
+            if dd["c09"].get("x0_toplevel"):
+                # multi-body workflow: a separate top-level field container carries the boundaries
+                # and is handed over as x0; the body keeps its own field container
+                top = w.field.copy()
+                for b_ in w.boundaries.values():
+                    k_ = [q for q, f_ in enumerate(w.field.fields) if f_ is b_.field][0]
+                    b_.field = top.fields[k_]
+                ekw["x0"] = top
+                log.count("x0-toplevel-container")
+            job, exc = eng.run_job(job_cls=fem.CharacteristicCurve, job_kwargs=jk, **ekw)
     return w, eng, mon, job, exc
 
 
